@@ -15,6 +15,9 @@ ANGLES = [0.0, 1.5707963267948966, -1.5707963267948966, 3.141592653589793, 0.3, 
 
 def swarm(t, profile="exec"):
     """Per-run configuration drawn from the 'swarm' tape."""
+    import os
+
+    deep = os.environ.get("VERIF_TIER_ACTIVE") == "thorough"  # deeper bounds in the thorough tier
     on = lambda p=0.6: t.random() < p
     gates = [g for g in GS.SIGS if on(0.7)] or ["Rx"]
     if "Rx" not in gates and on(0.5):
@@ -22,8 +25,8 @@ def swarm(t, profile="exec"):
     cfg = {
         "profile": profile,
         "n": t.weighted([(1, 1), (2, 3), (3, 3), (4, 2), (5, 0.7), (6, 0.5)]),
-        "budget": t.randint(3, 25),
-        "max_depth": t.randint(1, 5),
+        "budget": t.randint(3, 40 if deep else 25),
+        "max_depth": t.randint(1, 6 if deep else 5),
         "loop_counts": [c for c in (0, 1, 2, 3) if on(0.7)] or [2],
         "p_lets": t.choice([0.0, 0.5, 0.9]),
         "p_letsize": t.choice([0.0, 0.0, 0.3, 0.7]),
